@@ -552,6 +552,10 @@ pub struct Timed {
     /// max_transfer_count (0 = 1): a carousel turn is that many back-to-back transfers
     #[serde(default)]
     pub count: u32,
+    /// gzip content encoding (compressible text): the pacing tick divides the target by the symbols of the
+    /// transfer-encoded object
+    #[serde(default)]
+    pub cenc: bool,
 }
 
 #[derive(Serialize, Deserialize, Clone, Debug)]
@@ -578,6 +582,10 @@ fn timed_obj(t: &Timed, salt: u8, prio: u32) -> ObjSpec {
     o.oti = Some(OtiSpec::new(Scheme::NoCode, 4, 2, 0, true));
     o.prio = prio;
     o.count = t.count.max(1);
+    if t.cenc {
+        o.cenc = 3;
+        o.text = true;
+    }
     match t.kind {
         0 => o.start_ms = Some(t.param_ms as i64),
         1 => o.carousel = Some(Carousel::Delay(t.param_ms)),
@@ -826,7 +834,7 @@ pub fn run_timed(c: &TimedCase, g: &mut TG) -> Option<(String, String)> {
         // packet of the poll is its own
         if c.timed.len() == 1 && !c.top_plain && c.late.is_none() && matches!(c.timed[0].kind, 3 | 4) && c.timed[0].count <= 1 {
             let t0k = &c.timed[0];
-            let n = SIZES[t0k.size as usize].div_ceil(4).max(1) as u64;
+            let n = if t0k.cenc { timed_obj(t0k, 1, 0).desc(None).map(|d| d.transfer_length as usize).unwrap_or(0).div_ceil(4).max(1) as u64 } else { SIZES[t0k.size as usize].div_ceil(4).max(1) as u64 };
             let mut sent = 0u64;
             let mut start: Option<u64> = None;
             let mut i = 0usize;
@@ -915,7 +923,10 @@ pub fn timed_cases(thorough: bool) -> Vec<TimedCase> {
     for kind in 0..5u8 {
         for &param_ms in params {
             for size in 1..4u8 {
-                tops.push(Timed { kind, param_ms, size, count: 0 });
+                tops.push(Timed { kind, param_ms, size, count: 0, cenc: false });
+                if kind == 3 && size == 3 {
+                    tops.push(Timed { kind, param_ms, size, count: 0, cenc: true });
+                }
             }
         }
     }
@@ -923,12 +934,12 @@ pub fn timed_cases(thorough: bool) -> Vec<TimedCase> {
         for count in [2u32, 3] {
             for &param_ms in params {
                 for size in 1..3u8 {
-                    tops.push(Timed { kind, param_ms, size, count });
+                    tops.push(Timed { kind, param_ms, size, count, cenc: false });
                 }
             }
         }
     }
-    let mids = [Timed { kind: 1, param_ms: 500, size: 2, count: 0 }, Timed { kind: 3, param_ms: 1200, size: 3, count: 0 }, Timed { kind: 0, param_ms: 400, size: 1, count: 0 }, Timed { kind: 2, param_ms: 600, size: 2, count: 2 }];
+    let mids = [Timed { kind: 1, param_ms: 500, size: 2, count: 0, cenc: false }, Timed { kind: 3, param_ms: 1200, size: 3, count: 0, cenc: false }, Timed { kind: 0, param_ms: 400, size: 1, count: 0, cenc: false }, Timed { kind: 2, param_ms: 600, size: 2, count: 2, cenc: false }];
     for t in &tops {
         for &step_ms in steps {
             for budget in [1usize, 2, 5] {
